@@ -3,7 +3,7 @@
    returned and messages / errors are closed.  (Deadlock freedom; the other half of termination — no
    infinite run — is PConsMeasure.v / PConsTerminates.v.) *)
 From Coq Require Import List Arith Bool Lia.
-From SV Require Import C12.Lts C12.LtsProofs C12.Tac C12.PCons C12.PConsProofs C12.PConsInv1 C12.PConsInv2 C12.PConsSafety.
+From SV Require Import C12.Lts C12.LtsProofs C12.Tac C12.PCons C12.PConsProofs C12.PConsInv_01 C12.PConsInv_02 C12.PConsSafety.
 Import ListNotations.
 
 Module PCT.
